@@ -114,6 +114,48 @@ func minLm(P *Program) int64 {
 	return min
 }
 
+// sliceAppend is one `append(dst, elems...)` of a function, seen either in the function itself or in an unexported
+// helper it calls (e.g. a generic `appendAt(m, k, v)` standing for `m[k] = append(m[k], v)`); in the latter case the
+// descriptors are taken with the helper's parameters bound to the call's arguments, so they read as if the append
+// were written at the call site, and Blk is the block of that call.
+type sliceAppend struct {
+	Dst  string
+	Src  string // descriptor of the appended slice argument (for `append(dst, xs...)`)
+	Tail []SeqElem
+	Blk  *ssa.BasicBlock
+	Ins  ssa.Instruction
+}
+
+func sliceAppends(P *Program, fn *ssa.Function) []sliceAppend {
+	var out []sliceAppend
+	collect := func(g *ssa.Function, at ssa.Instruction) {
+		allInstrs(g, func(i ssa.Instruction) {
+			c, ok := i.(*ssa.Call)
+			if !ok || !isCallTo(c, "builtin:append") {
+				return
+			}
+			a := sliceAppend{Dst: desc(callArgs(c)[0]), Src: desc(callArgs(c)[1]), Blk: c.Block(), Ins: c}
+			if at != nil {
+				a.Blk, a.Ins = at.Block(), at
+			}
+			if tail, ok := seqTail(callArgs(c)[1], 0, map[ssa.Value]bool{}); ok {
+				a.Tail = tail
+			}
+			out = append(out, a)
+		})
+	}
+	collect(fn, nil)
+	for _, c := range callsIn(fn) {
+		g := staticCallee(c)
+		if g == nil || g == fn || !inModuleFn(g) || g.Blocks == nil || g.Parent() != nil || (g.Object() != nil && g.Object().Exported()) || len(g.Blocks) > 3 {
+			continue
+		}
+		cc := c
+		bindCall(cc, g, func() { collect(g, cc) })
+	}
+	return out
+}
+
 func orderAgreementRule(P *Program, R *Report) {
 	rule := "C13.a"
 	// prover: Commit
@@ -134,19 +176,17 @@ func orderAgreementRule(P *Program, R *Report) {
 			R.decide(rule, kDPBCommit+":inner-slice-order", "per index the structures are visited in slice order", inner != nil && inner.Body[cfs.Block()] && desc(callArgs(cfs)[0]) == dpb+".rpStructures[#i][#j]", desc(callArgs(cfs)[0]), P.Pos(cfs.Pos()))
 			// contributions appended to the list in that order, commits recorded per index in the same order
 			okApp, okCommit := false, false
-			allInstrs(fn, func(i ssa.Instruction) {
-				c, ok := i.(*ssa.Call)
-				if !ok || !isCallTo(c, "builtin:append") || c.Block() != cfs.Block() && !inner.Body[c.Block()] {
-					return
+			for _, a := range sliceAppends(P, fn) {
+				if a.Blk != cfs.Block() && !inner.Body[a.Blk] {
+					continue
 				}
-				d := desc(callArgs(c)[1])
-				if d == desc(cfs)+"#0" {
+				if a.Src == desc(cfs)+"#0" {
 					okApp = true
 				}
-				if tail, ok := seqTail(callArgs(c)[1], 0, map[ssa.Value]bool{}); ok && len(tail) == 1 && tail[0].D == desc(cfs)+"#1" {
-					okCommit = desc(callArgs(c)[0]) == dpb+".rpCommits[#i]"
+				if len(a.Tail) == 1 && a.Tail[0].D == desc(cfs)+"#1" {
+					okCommit = a.Dst == dpb+".rpCommits[#i]"
 				}
-			})
+			}
 			R.decide(rule, kDPBCommit+":appended-in-order", "each structure's contributions are appended to the commitment list as it is visited", okApp, "", P.Pos(cfs.Pos()))
 			R.decide(rule, kDPBCommit+":commits-in-order", "the per-index commit list follows the structures' order", okCommit, "", P.Pos(cfs.Pos()))
 		}
@@ -155,20 +195,16 @@ func orderAgreementRule(P *Program, R *Report) {
 	if fn := mustFunc(P, R, rule, kDPBCreateProof); fn != nil {
 		ok := false
 		got := ""
-		allInstrs(fn, func(i ssa.Instruction) {
-			c, isC := i.(*ssa.Call)
-			if !isC || !isCallTo(c, "builtin:append") {
-				return
+		for _, a := range sliceAppends(P, fn) {
+			tail := a.Tail
+			if len(tail) != 1 || !strings.HasPrefix(tail[0].D, "call:rangeproof.(*ProofStructure).BuildProof(") {
+				continue
 			}
-			tail, okT := seqTail(callArgs(c)[1], 0, map[ssa.Value]bool{})
-			if !okT || len(tail) != 1 || !strings.HasPrefix(tail[0].D, "call:rangeproof.(*ProofStructure).BuildProof(") {
-				return
-			}
-			got = tail[0].D + " -> " + desc(callArgs(c)[0])
+			got = tail[0].D + " -> " + a.Dst
 			key := "rangekey(" + dpb + ".rpStructures)"
 			ok = tail[0].D == "call:rangeproof.(*ProofStructure).BuildProof("+dpb+".rpStructures[*][#j],"+dpb+".rpCommits["+key+"][#j],arg#1)" &&
-				desc(callArgs(c)[0]) == "makemap["+key+"]"
-		})
+				a.Dst == "makemap["+key+"]"
+		}
 		R.decide(rule, kDPBCreateProof+":proofs-in-structure-order", "RangeProofs[index][i] is built from structure i and commit i of that index", ok, got, P.Pos(fn.Pos()))
 	}
 	// verifier: sorted indices, proofs in slice order (same facts as C12.a)
@@ -339,28 +375,28 @@ func statementFilingRule(P *Program, R *Report) {
 		return
 	}
 	key := "rangekey(arg#2)"
-	var app *ssa.Call
-	allInstrs(fn, func(i ssa.Instruction) {
-		c, ok := i.(*ssa.Call)
-		if ok && isCallTo(c, "builtin:append") && desc(callArgs(c)[0]) == nbD+".rpStructures["+key+"]" {
-			app = c
+	var app *sliceAppend
+	for _, a := range sliceAppends(P, fn) {
+		if a.Dst == nbD+".rpStructures["+key+"]" {
+			aa := a
+			app = &aa
 		}
-	})
+	}
 	if app == nil {
 		R.bad(rule, kCredBuilder+":filed", "structures are filed under the statement's attribute index", "no append to rpStructures[index]", P.Pos(fn.Pos()))
 		return
 	}
-	tail, _ := seqTail(callArgs(app)[1], 0, map[ssa.Value]bool{})
+	tail := app.Tail
 	stmt := "arg#2[*][#j]"
 	ok := len(tail) == 1 && (tail[0].D == "call:rangeproof.(*Statement).ProofStructure("+stmt+","+key+")#0" ||
 		tail[0].D == "call:rangeproof.NewProofStructure("+key+","+stmt+".Sign,"+stmt+".Factor,"+stmt+".Bound,"+stmt+".Splitter)#0")
-	R.decide(rule, kCredBuilder+":filed", "every statement's structure is built for, and filed under, the index the caller gave it", ok, seqString(tail), P.Pos(app.Pos()))
+	R.decide(rule, kCredBuilder+":filed", "every statement's structure is built for, and filed under, the index the caller gave it", ok, seqString(tail), P.Pos(app.Ins.Pos()))
 	r := (&MustPass{P: P, Match: func(a Atom) bool {
 		// the index is not contained in the disclosed list (tested here or in a helper such as isUndisclosedAttribute)
 		c, okc := callAtom(a, False, "slices.Contains")
 		return okc && desc(callArgs(c)[0]) == "arg#1" && desc(callArgs(c)[1]) == key
-	}}).MustReach(fn, app)
-	R.decide(rule, kCredBuilder+":hidden-only", "a range statement is accepted only for an attribute that is not disclosed", r.Holds, r.Path, P.Pos(app.Pos()))
+	}}).MustReach(fn, app.Ins)
+	R.decide(rule, kCredBuilder+":hidden-only", "a range statement is accepted only for an attribute that is not disclosed", r.Holds, r.Path, P.Pos(app.Ins.Pos()))
 	if iu := P.Func("gabi.isUndisclosedAttribute"); iu != nil {
 		okc := false
 		for _, ret := range returnsOf(iu) {
